@@ -4,7 +4,7 @@ META = {
     'design_ref': 'DESIGN.md section 5, C20; design/C20.md',
     'technique': 'Coq proof (time bound of the instrumented lookup loop; generic lock-order deadlock-freedom theorem instantiated on lock sequences regenerated from the source; structural facts about the shutdown path regenerated from the source) + timed runs of real nodes over an in-memory router checked against the proved bounds',
     'level_text': 'Theorems (Props/C20.v): for every reply pattern a lookup is over within MAX_ITERATIONS x D (D = per-request bound, proportional to the request timeout), the clock being a ghost of the C01 model; tasks that acquire locks in a fixed rank order, never re-acquire and release everything can reach no deadlocked state under ANY schedule, and the lock sequences regenerated from DhtNetworkManager on every run satisfy that discipline (proved by computation); the request path checks the shutdown token before the transport and stop() orders leave / cancel / join (structural facts regenerated from the source). The real runtime is exercised on every run: concurrent lookups/puts/gets with seeded delays, peers going silent mid-operation and stop() at random instants; completion times are checked inside Coq against the bounds and the RPC trace after stop() returned must be free of requests.',
-    'level_note': 'PARTIAL - weakest tie of the set. Trusted: Coq kernel; the lexical lock scanner (translator/gen_lockseqs.py, fail-closed but crude: guard lifetimes are approximated, RwLock modes as Rd/Wr, std Mutex as Wr, joins of tasks are not lock edges); harness. Not modelled: tokio fairness and cancellation points, the scheduler, DhtCoreEngine-internal locks (always taken under the manager\'s dht lock and never the other way round), timing of the real machine (slack 400 ms). A deadlock that the lock-order abstraction misses can only be caught by the timed runs.',
+    'level_note': 'PARTIAL - weakest tie of the set. Trusted: Coq kernel; the lexical lock scanner (translator/gen_lockseqs.py, fail-closed but crude: guard lifetimes are approximated, RwLock modes as Rd/Wr, std Mutex as Wr, joins of tasks are not lock edges); harness. Not modelled: tokio fairness and cancellation points, the scheduler, DhtCoreEngine-internal locks (always taken under the manager\'s dht lock and never the other way round), timing of the real machine (slack 1500 ms). A deadlock that the lock-order abstraction misses can only be caught by the timed runs.',
     'assumptions': ['per-request bound D = dial + send + request timeout = 3 x request_timeout in the harness configuration', 'lock scanner approximates guard lifetimes lexically'],
     'harness_timeout': 1500,
 }
